@@ -37,6 +37,9 @@ def run(ctx):
     from .c02 import r02d
 
     ctx.each(r02d, ctx, repo, T)
+    from . import c04 as _c04
+
+    ctx.each(_c04.r04b, ctx, repo)  # junctions are balanced and flushed in dependency order: people flushed into a junction that was visited before are left behind
     ctx.each(flowalg.accumulator_rule, ctx, repo, "R01i")
     ctx.each(flowalg.link_registration_rule, ctx, repo, "R01k")
     ctx.each(flowalg.step_wiring_rule, ctx, repo, "R01l")
